@@ -125,16 +125,19 @@ func (c18) Run(t *tape.Tape, tier Tier) *Result {
 func (c18r) Run(t *tape.Tape, tier Tier) *Result {
 	res := &Result{}
 	cfg := gen.Config{Alpha: gen.Regular, Swarm: true, MaxDepth: 5, MaxNodes: 10, Boost: gen.GMulti | gen.GAnnot, BoostFactor: 2}
+	if t.Bool(1, 4) {
+		cfg.Alpha = gen.Hostile // e.g. payloads that fail to marshal
+	}
 	g := gen.New(t, cfg)
 	spec := g.Tree()
 	shared, twin, state := c18Values(t, spec)
 	res.Desc.Tree = spec.Expr()
 	res.Kinds = kindsOf(spec)
 	ops := c18Ops(shared, c18Fresh(spec))
+	// The solo results are computed AFTER the concurrent phase (on the twin):
+	// process-wide lazily initialised state must still be cold when the
+	// goroutines start.
 	solo := make([]string, len(ops))
-	for i, op := range c18Ops(twin, c18Fresh(spec)) {
-		solo[i] = op.fn()
-	}
 	nG := 16 + t.Draw(9)
 	reps := 3
 	opOf := make([]int, nG)
@@ -157,6 +160,9 @@ func (c18r) Run(t *tape.Tape, tier Tier) *Result {
 	}
 	close(start)
 	wg.Wait()
+	for i, op := range c18Ops(twin, c18Fresh(spec)) {
+		solo[i] = op.fn()
+	}
 	for i := range results {
 		for _, r := range results[i] {
 			if r != solo[opOf[i]] {
